@@ -1,7 +1,127 @@
 package main
 
-// tryReplay attempts to turn a solver model into a concrete input and run it against the real code.
-// Drivers are registered per function; without one the violation is reported with no-failing-input-found.
+// Counterexample replay: for the function families below a driver test (in /verif/replay) is injected into the
+// package with `go test -overlay` (nothing is written to the repository) and exercises the REAL function with the
+// concrete inputs the solver's counterexamples range over (frame shapes, request bodies, attempts, permission sets,
+// panic payloads, read/close sequences). A driver that observes the violation confirms it; otherwise the violation is
+// reported with no-failing-input-found and the solver's output attached.
+
+import (
+	"context"
+	"encoding/json"
+	"fmt"
+	"os"
+	"os/exec"
+	"path/filepath"
+	"regexp"
+	"strings"
+	"sync"
+	"time"
+)
+
+type replayDriver struct {
+	file string // under <verif>/replay
+	pkg  string // package directory relative to the repository root
+	test string
+}
+
+var replayDrivers = map[string]replayDriver{
+	"(*wsConn).cancelCtx":                {"frames_test.go.txt", ".", "TestZZReplayFrames"},
+	"(*wsConn).handleChanMessage":        {"frames_test.go.txt", ".", "TestZZReplayFrames"},
+	"(*wsConn).handleChanClose":          {"frames_test.go.txt", ".", "TestZZReplayFrames"},
+	"(*wsConn).handleResponse":           {"frames_test.go.txt", ".", "TestZZReplayFrames"},
+	"(*wsConn).handleFrame":              {"frames_test.go.txt", ".", "TestZZReplayFrames"},
+	"(*wsConn).frameExecutor":            {"frames_test.go.txt", ".", "TestZZReplayFrames"},
+	"(*wsConn).handleCall":               {"frames_test.go.txt", ".", "TestZZReplayFrames"},
+	"normalizeID":                        {"frames_test.go.txt", ".", "TestZZReplayFrames"},
+	"(*handler).handleReader":            {"reader_test.go.txt", ".", "TestZZReplayReader"},
+	"(*backoff).next":                    {"backoff_test.go.txt", ".", "TestZZReplayBackoff"},
+	"doCall":                             {"docall_test.go.txt", ".", "TestZZReplayDoCall"},
+	"auth.HasPerm":                       {"auth/hasperm_test.go.txt", "auth", "TestZZReplayHasPerm"},
+	"auth.WithPerm":                      {"auth/hasperm_test.go.txt", "auth", "TestZZReplayHasPerm"},
+	"(*httpio.waitReadCloser).Read":      {"httpio/wrc_test.go.txt", "httpio", "TestZZReplayWaitReadCloser"},
+	"(*httpio.waitReadCloser).Close":     {"httpio/wrc_test.go.txt", "httpio", "TestZZReplayWaitReadCloser"},
+}
+
+type replayOutcome struct {
+	confirmed bool
+	output    string
+	cmd       string
+}
+
+var (
+	replayMu    sync.Mutex
+	replayCache = map[string]*replayOutcome{}
+)
+
+var modelIntRe = regexp.MustCompile(`\(define-fun (H!backoff!(\d)!0) \(\) \(Array U Int\)\s+\(\(as const \(Array U Int\)\) (\(- \d+\)|\d+)\)`)
+
 func (e *Engine) tryReplay(prop string, g *groupResult, rf *replayFile) bool {
-	return false
+	d, ok := replayDrivers[g.Func]
+	if !ok {
+		rf.Notes = append(rf.Notes, "no replay driver is registered for "+g.Func)
+		return false
+	}
+	replayMu.Lock()
+	defer replayMu.Unlock()
+	key := d.file
+	if o, ok := replayCache[key]; ok {
+		rf.Replay, rf.ReplayOut = o.cmd, o.output
+		return o.confirmed
+	}
+	o := e.runDriver(d, g)
+	replayCache[key] = o
+	rf.Replay, rf.ReplayOut = o.cmd, o.output
+	return o.confirmed
+}
+
+func (e *Engine) runDriver(d replayDriver, g *groupResult) *replayOutcome {
+	src := filepath.Join(*flagVerif, "replay", d.file)
+	if _, err := os.Stat(src); err != nil {
+		return &replayOutcome{output: "driver missing: " + src}
+	}
+	tmp, err := os.MkdirTemp("", "govc-replay-")
+	if err != nil {
+		return &replayOutcome{output: err.Error()}
+	}
+	defer os.RemoveAll(tmp)
+	repo, _ := filepath.Abs(*flagRepo)
+	target := filepath.Join(repo, d.pkg, "zz_govc_replay_test.go")
+	ov := map[string]map[string]string{"Replace": {target: src}}
+	data, _ := json.Marshal(ov)
+	ovPath := filepath.Join(tmp, "overlay.json")
+	_ = os.WriteFile(ovPath, data, 0o644)
+	args := []string{"test", "-overlay", ovPath, "-vet=off", "-count=1", "-timeout", "120s", "-run", "^" + d.test + "$", "./" + d.pkg}
+	ctx, cancel := context.WithTimeout(context.Background(), 150*time.Second)
+	defer cancel()
+	cmd := exec.CommandContext(ctx, "go", args...)
+	cmd.Dir = repo
+	cmd.Env = append(os.Environ(), "GOFLAGS=-mod=mod", "GOPROXY=off", "GOSUMDB=off", "GOTOOLCHAIN=local")
+	// hand the interesting numeric model values to the driver where it can use them
+	if m := modelIntRe.FindAllStringSubmatch(g.Model, -1); len(m) > 0 {
+		for _, x := range m {
+			v := strings.NewReplacer("(- ", "-", ")", "").Replace(x[3])
+			if x[2] == "0" {
+				cmd.Env = append(cmd.Env, "GOVC_MODEL_MIN="+v)
+			} else {
+				cmd.Env = append(cmd.Env, "GOVC_MODEL_MAX="+v)
+			}
+		}
+	}
+	out, _ := cmd.CombinedOutput()
+	text := string(out)
+	var keep []string
+	for _, ln := range strings.Split(text, "\n") {
+		if strings.Contains(ln, "REPLAY-") || strings.HasPrefix(ln, "--- ") || strings.HasPrefix(ln, "FAIL") || strings.HasPrefix(ln, "ok ") || strings.HasPrefix(ln, "panic:") {
+			keep = append(keep, ln)
+		}
+	}
+	if len(keep) > 40 {
+		keep = append(keep[:40], fmt.Sprintf("... (%d more lines)", len(keep)-40))
+	}
+	return &replayOutcome{
+		confirmed: strings.Contains(text, "REPLAY-VIOLATION"),
+		output:    strings.Join(keep, "\n"),
+		cmd:       "cd " + repo + " && go " + strings.Join(args, " ") + "   # overlay: " + target + " -> " + src,
+	}
 }
